@@ -937,6 +937,7 @@ class Trace:
     waypoints: List[Tuple[Scope, ast.Name, tuple]] = field(default_factory=list)   # names the value passed through, with the pending selectors
     containers: List[str] = field(default_factory=list)         # locals passed as containers (pending selector 'elem'/'key'/'dkey')
     binders: List[ast.AST] = field(default_factory=list)         # loops / comprehensions whose variable the value passed through
+    indexed: List[ast.Subscript] = field(default_factory=list)   # `x[i]` with a computed index that the value was read through
 
     def values(self):
         return [l for l in self.leaves if l.kind != "const"]
@@ -1068,11 +1069,11 @@ def trace(ctx, scope: Scope, expr, sel: tuple = (), max_depth: int = 60) -> Trac
         for n in walk_shallow(f.node):
             if isinstance(n, ast.Call) and isinstance(n.func, ast.Attribute) and isinstance(n.func.value, ast.Name) and n.func.value.id == name:
                 m = n.func.attr
-                if head == "elem":
+                if head in ("elem", "idx"):         # a position in a list that is built up element by element: any of its elements
                     if m == "append" and len(n.args) == 1:
                         go(sc, n.args[0], s[1:], depth + 1)
                     elif m == "extend" and len(n.args) == 1:
-                        go(sc, n.args[0], s, depth + 1)
+                        go(sc, n.args[0], (("elem",),) + s[1:], depth + 1)
                     elif m == "insert" and len(n.args) == 2:
                         go(sc, n.args[1], s[1:], depth + 1)
                     elif m == "setdefault" and len(n.args) == 2:
@@ -1125,6 +1126,7 @@ def trace(ctx, scope: Scope, expr, sel: tuple = (), max_depth: int = 60) -> Trac
                 else:
                     leaf(sc, e, s, "opaque")
             else:
+                res.indexed.append(e)
                 go(sc, e.value, (("elem",),) + s, depth + 1)
             return
         if isinstance(e, (ast.Tuple, ast.List)):
@@ -1164,15 +1166,15 @@ def trace(ctx, scope: Scope, expr, sel: tuple = (), max_depth: int = 60) -> Trac
                 leaf(sc, e, s, "opaque")
             return
         if isinstance(e, (ast.ListComp, ast.GeneratorExp, ast.SetComp)):
-            if s and s[0][0] == "elem":
+            if s and s[0][0] in ("elem", "idx"):
                 res.binders.append(e)
                 go(sc, e.elt, s[1:], depth + 1)
             else:
                 leaf(sc, e, s, "opaque" if s else "expr")
             return
         if isinstance(e, ast.BinOp):
-            if s and s[0][0] == "elem" and isinstance(e.op, ast.Mult) and (isinstance(e.left, ast.List) or isinstance(e.right, ast.List)):
-                go(sc, e.left if isinstance(e.left, ast.List) else e.right, s, depth + 1)
+            if s and s[0][0] in ("elem", "idx") and isinstance(e.op, ast.Mult) and (isinstance(e.left, ast.List) or isinstance(e.right, ast.List)):
+                go(sc, e.left if isinstance(e.left, ast.List) else e.right, (("elem",),) + s[1:], depth + 1)
             elif s and s[0][0] == "elem" and isinstance(e.op, ast.Add):
                 go(sc, e.left, s, depth + 1)
                 go(sc, e.right, s, depth + 1)
